@@ -570,6 +570,46 @@ impl World {
         }
     }
 
+    /// The attribute-id counter of the access structure jumps forward (ids are never reused, the
+    /// counter only grows: this is the state of an authority that created that many attributes).
+    /// Done on the serialized structure, whose last field is the counter.
+    pub fn ev_id_counter_jump(&mut self, to: u64, back: Option<u8>) {
+        let Ok(b) = self.auth.msk.access_structure.serialize() else { return };
+        let b = b.to_vec();
+        let mut rd = wire::Rd::new(&b);
+        let Ok(ws) = wire::read_structure(&mut rd) else {
+            self.stats.unobservable += 1;
+            return;
+        };
+        let Some(cur) = ws.next_id else { return };
+        let to = match back {
+            Some(b) => to.saturating_add(cur.saturating_sub(b as u64)),
+            None => to,
+        };
+        if to <= cur {
+            self.outcomes.push("id-counter-jump:not-forward".into());
+            return;
+        }
+        let tail = wire::leb_encode(cur);
+        if !b.ends_with(&tail) {
+            self.stats.unobservable += 1;
+            return;
+        }
+        let mut nb = b[..b.len() - tail.len()].to_vec();
+        nb.extend(wire::leb_encode(to));
+        match guard(|| cosmian_cover_crypt::AccessStructure::deserialize(&nb)) {
+            Ok(Ok(s)) => {
+                self.auth.msk.access_structure = s;
+                self.stats.fault("attribute-id-counter-jump");
+                self.outcomes.push("id-counter-jump:ok".into());
+            }
+            _ => {
+                self.fail(Class::Reload, "structure/deserialize-failed/large-id-counter", format!("counter {to}"));
+                self.outcomes.push("id-counter-jump:unreadable".into());
+            }
+        }
+    }
+
     /// The master key is replaced by one of a higher tracing level: its serialized form gets one
     /// more tracer (a copy of the last one, a well-formed (scalar, point) pair) and is read back,
     /// as when the key comes from a deployment configured with another level. Keys issued before
@@ -996,22 +1036,29 @@ impl World {
         let me = mm.encaps(&pol.ast).unwrap();
         let cc = &self.encryptors[e].cc;
         let seed = self.seed ^ (self.now << 20) ^ 0x07E4;
-        let results: Vec<(Vec<u8>, Vec<u8>)> = std::thread::scope(|sc| {
-            sc.spawn(|| {
-                crate::seams::install_thread_seed(seed);
-                let mut out = vec![];
-                for _ in 0..n {
-                    if let Ok(Ok((s, x))) = guard(|| cc.encaps(mpk, &ap)) {
-                        if let Ok(b) = x.serialize() {
-                            out.push((s.to_vec(), b.to_vec()));
+        // several helper threads, one after the other (no race: which thread runs is never a
+        // choice of the OS scheduler); a generator that is per OS thread, or sharded by thread
+        // id, shows as values repeated between two of them
+        let mut results: Vec<(Vec<u8>, Vec<u8>)> = vec![];
+        for k in 0..5u64 {
+            let part: Vec<(Vec<u8>, Vec<u8>)> = std::thread::scope(|sc| {
+                sc.spawn(|| {
+                    crate::seams::install_thread_seed(seed ^ (k << 8));
+                    let mut out = vec![];
+                    for _ in 0..n {
+                        if let Ok(Ok((s, x))) = guard(|| cc.encaps(mpk, &ap)) {
+                            if let Ok(b) = x.serialize() {
+                                out.push((s.to_vec(), b.to_vec()));
+                            }
                         }
                     }
-                }
-                out
-            })
-            .join()
-            .unwrap_or_default()
-        });
+                    out
+                })
+                .join()
+                .unwrap_or_default()
+            });
+            results.extend(part);
+        }
         self.stats.probe("encapsulation-from-another-os-thread");
         for (s, b) in results {
             self.register_enc(&b, &s, "encaps-other-thread", &me);
@@ -1536,7 +1583,42 @@ impl World {
                 if o2 != *obj {
                     self.fail(Class::Reload, format!("{name}/round-trip-not-equal"), String::new());
                 }
+                if self.wants(Class::Reload) {
+                    self.read_in_sequence(obj, name);
+                }
                 Some(o2)
+            }
+        }
+    }
+
+    /// The object written twice to one stream (as when several objects share a file or a
+    /// message) is read back twice with `Deserializer::read`: both values equal the original
+    /// and nothing is left.
+    fn read_in_sequence<T: Serializable + PartialEq>(&mut self, obj: &T, name: &str)
+    where
+        T::Error: std::fmt::Display,
+    {
+        use cosmian_crypto_core::bytes_ser_de::Serializer;
+        self.stats.check("read-in-sequence");
+        let r = guard(|| {
+            let mut ser = Serializer::new();
+            if ser.write(obj).is_err() || ser.write(obj).is_err() {
+                return Err("write failed".to_string());
+            }
+            let bytes = ser.finalize();
+            let mut de = Deserializer::new(&bytes);
+            let a = de.read::<T>().map_err(|e| format!("first read: {e}"))?;
+            let b = de.read::<T>().map_err(|e| format!("second read: {e}"))?;
+            let rest = de.finalize().len();
+            Ok((a == *obj, b == *obj, rest))
+        });
+        match r {
+            Err(p) => self.fail(Class::Reload, format!("{name}/read-in-sequence/panic"), p),
+            Ok(Err(e)) => self.fail(Class::Reload, format!("{name}/read-in-sequence/failed"), e),
+            Ok(Ok((a, b, rest))) => {
+                if !a || !b || rest != 0 {
+                    self.fail(Class::Reload, format!("{name}/read-in-sequence/not-equal"), format!("first equal: {a}, second equal: {b}, {rest} bytes left"));
+                }
             }
         }
     }
